@@ -114,6 +114,7 @@ func Load(repo string, cfg Config, needSSA bool) (*Program, error) {
 		}
 	}
 	p.allFuncs = ssautil.AllFunctions(prog)
+	curProgram = p
 	p.resolveRenames()
 	p.resolveDevirt()
 	p.byName = map[string]*ssa.Function{}
